@@ -321,8 +321,24 @@ class Gen:
             return None
         if k == "ReturnStmt":
             return self.expr(s["inner"][0]) if s.get("inner") else None
+        if k == "UnaryOperator" and s.get("opcode") in ("++", "--"):
+            t = s["inner"][0]
+            while t.get("kind") in ("ParenExpr", "ImplicitCastExpr"): t = t["inner"][0]
+            if t.get("kind") == "DeclRefExpr" and self.lookup(t["referencedDecl"]["name"])[0] == "region":
+                return None                                      # ++r / --r on a pointer bound to a region
+            raise Unsupported("increment at %s" % loc_of(s))
+        if k == "CompoundAssignOperator" and s.get("opcode") in ("+=", "-="):
+            t = s["inner"][0]
+            while t.get("kind") in ("ParenExpr", "ImplicitCastExpr"): t = t["inner"][0]
+            if t.get("kind") == "DeclRefExpr" and self.lookup(t["referencedDecl"]["name"])[0] == "region":
+                return None                                      # r += 2 on a pointer bound to a region
         if k in ("BinaryOperator", "CompoundAssignOperator"):
             return self.assign(s)
+        if k == "IfStmt":
+            # only `if (<compile-time constant>)`: the tweaked flag of set_tk1 bound as a constant
+            c = self.const(s["inner"][0])
+            if c: return self.stmt(s["inner"][1])
+            return self.stmt(s["inner"][2]) if len(s["inner"]) > 2 else None
         if k == "CallExpr":
             self.call(s); return None
         if k == "ParenExpr": return self.stmt(s["inner"][0])
@@ -417,7 +433,7 @@ def find_loops(n, out):
     for c in n.get("inner", []) or []:
         if c: find_loops(c, out)
 
-def kernel_loop(tu, fname, nth, binds, opaque, consts=None):
+def kernel_loop(tu, fname, nth, binds, opaque, consts=None, carried=None, sizes=None):
     """binds: C identifier -> (region name, type name) for objects the loop body uses (state, schedule, ks, tweak, ...)"""
     f = tu.funcs[fname]
     loops = []; find_loops(f, loops)
@@ -426,9 +442,13 @@ def kernel_loop(tu, fname, nth, binds, opaque, consts=None):
     scope = {}
     for ident, (rname, tname) in binds.items():
         base = tname[:-1].strip() if tname.endswith("*") else tname
-        r = g.region(rname, tu.type_size(base)[0]); scope[ident] = ("region", r, 0, tname)
+        r = g.region(rname, (sizes or {}).get(ident) or tu.type_size(base)[0]); scope[ident] = ("region", r, 0, tname)
     for ident, (val, w) in (consts or {}).items():
         scope[ident] = ("const", val, w, False)
+    carried_l = []
+    for ident, (rname, w, sg) in (carried or {}).items():       # scalar locals live across iterations (rc)
+        r = g.region(rname, w // 8); i = g.new_local(w); scope[ident] = ("local", i, w, sg)
+        g.emit_local(i, "ELoad %d 0 %d" % (r, w // 8)); carried_l.append((i, r, w))
     g.scopes.append(scope)
     # scalar locals of the function that the body assigns before use (temp, ...): declared, not initialised
     fbody = [c for c in f["inner"] if c.get("kind") == "CompoundStmt"][0]
@@ -439,6 +459,8 @@ def kernel_loop(tu, fname, nth, binds, opaque, consts=None):
                 if d.get("kind") == "VarDecl" and t in WIDTHS and d["name"] not in scope:
                     w, sg = WIDTHS[t]; g.scopes[-1][d["name"]] = ("local", g.new_local(w), w, sg)
     g.stmt(body)
+    for i, r, w in carried_l:
+        g.emit_store(r, 0, w // 8, "ELocal %d" % i)
     return g
 
 def emit(g, name):
